@@ -111,7 +111,7 @@ prop('C04', COMMON +
      ['strategy chosen atomically; waits only when the queue is owned or parked (TR-defer)', 'blocked caller cannot miss its wake-up (CV1, CV2, QD-waiters)', 'caller runs the queue itself when woken and it is claimable (ORD-C04-steal)',
       'own result, after completion (ORD-C04-result, UA-wait)', 'no lock-order cycle, no blocking/foreign code under an internal lock (LO, BL)', 'caller-side execution holds the token (TOK-exec)', 'caller-side parking: wake latched while polling, consumed before parking, unpark + re-check loop (PARK-wake, ORD-C06-drain)'],
      ['termination of the operations ahead; OS fairness', '"from inside a job of a different Desync" is derived from BL (no internal lock is held while a job runs)'],
-     [(RP.tr_defer, None, ['sync']), (RL.cv, None), (RQ.qd_wake_blocked, None), (RQ.qd_run, None), (RO.c04_steal, None), (RO.c04_result, None), (RU.ua_wait, None), (RL.lo, None), (RL.bl, None), (RL.lock_classes, None), (RP.tok_exec, None), (RP.tok_resched, None),
+     [(RP.tr_defer, None, ['sync']), (RL.cv, None), (RQ.qd_wake_blocked, None), (RQ.qd_run, None), (RP.tr_roles, None), (RP.tr_dead, None), (RO.c04_steal, None), (RO.c04_result, None), (RU.ua_wait, None), (RL.lo, None), (RL.bl, None), (RL.lock_classes, None), (RP.tok_exec, None), (RP.tok_resched, None),
       (RP.park_wake, None, ['WakeThread', 'run_one_job_now']), (RO.c06_drain, None, ['run_one_job_now'])])
 
 prop('C05', COMMON +
@@ -149,9 +149,9 @@ prop('C08', COMMON +
 prop('C09', COMMON +
      'Decided: a Busy outcome of try_sync has written nothing (every path to Err(Busy) leaves the token untouched: TOK-leak); try_sync never reaches a blocking primitive except the bounded join of finished threads (ORD-C09-noblock); '
      'it runs its closure only from (Idle, queue empty), exactly like sync\'s immediate row (TR-immediate, TR-sibling); after the immediate run the queue goes Idle and is rescheduled (TOK-resched); no running state without a runner is reachable (PA-stuck).',
-     ['Busy has written nothing (TOK-leak on try_sync)', 'never blocks (ORD-C09-noblock)', 'immediate only on Idle and empty (TR-immediate, TR-sibling)', 'Idle then reschedule_queue after the run (TOK-resched)', 'no ownerless running state (PA-stuck)'],
+     ['Busy has written nothing (TOK-leak on try_sync)', 'never blocks (ORD-C09-noblock)', 'immediate only on Idle and empty (TR-immediate, TR-sibling)', 'Idle then reschedule_queue after the run (TOK-resched)', 'no ownerless running state (PA-stuck)', 'a closure that panics in the immediate run leaves the queue Panicked, not Running for ever (TOK-guard); releases go to Idle, never to a parked state or to Panicked (TR-roles, TR-dead)'],
      ['"succeeds once quiescent" as a statement about time'],
-     [(RP.tok_leak, None), (RO.c09_noblock, None), (RP.tr_immediate, None), (RP.tr_sibling, None, ['try_sync']), (RP.tok_resched, None), (RP.pa_rules, {'PA-stuck', 'PA'}), (RP.tok_exec, None)])
+     [(RP.tok_leak, None), (RO.c09_noblock, None), (RP.tr_immediate, None), (RP.tr_sibling, None, ['try_sync']), (RP.tok_resched, None), (RP.pa_rules, {'PA-stuck', 'PA'}), (RP.tok_exec, None), (RP.tr_roles, None), (RP.tr_dead, None), (RG.tok_guard, None)])
 
 prop('C10', COMMON +
      'Decided: no scheduler-wide lock is held at any job-execution or blocking site (BL); the lock-order graph is acyclic (LO); a ready queue goes to a dormant thread or to a newly spawned one below the maximum, then scheduling is retried (ORD-C10-spawn); '
